@@ -114,9 +114,9 @@ def body(c):
     c.extra["load_outcomes"] = stats
     # Memory: a damaged cache entry makes the cached function recompute (never fail, never return garbage)
     mstats = {"ok": 0}
-    for compress in (False, True):
-        for val in (3, 7) if c.quick else (3, 7, 11, 13):
-            mb = os.path.join(base, "mem_%s_%d" % (compress, val)); tdir = os.path.join(mb, "template"); os.makedirs(tdir)
+    for compress in (False, True, ["xz", 3], ["gzip", 3], ["bz2", 3], ["lzma", 3]):
+        for val in ((3, 7) if c.quick else (3, 7, 11, 13)) if compress in (False, True) else ((3,) if c.quick else (3, 7)):
+            mb = os.path.join(base, "mem_%s_%d" % (compress if not isinstance(compress, list) else compress[0], val)); tdir = os.path.join(mb, "template"); os.makedirs(tdir)
             spec = dict(moddir=os.path.join(mb, "mod"), ver=1, log=os.path.join(mb, "log"), opts={"compress": compress}, ops=[["call", val]])
             fsctl.run_plain(tdir, spec)
             outs = [os.path.join(dp, "output.pkl") for dp, dn, fn in os.walk(tdir) if "output.pkl" in fn]
